@@ -174,8 +174,10 @@ def run_impl(lines, facts_path):
 
 def run_model(lines):
     exe = os.path.join(COQ, "extract", "main.exe")
+    env = dict(os.environ)
+    env["VERIF_BANKS"] = os.path.join(COQ, "theories", "Gen", "banks.tsv")
     r = subprocess.run(["bash", "-c", f"ulimit -s unlimited; exec {exe}"], input="\n".join(lines) + "\n",
-                       capture_output=True, text=True, timeout=3600)
+                       capture_output=True, text=True, timeout=3600, env=env)
     out = r.stdout.split("\n")
     if out and out[-1] == "":
         out.pop()
@@ -222,6 +224,9 @@ def check(pid, tier, seed):
     import props
     t0 = time.time()
     P = props.REGISTRY[pid]
+    for old in os.listdir(os.path.join(ROOT, "replays")) if os.path.isdir(os.path.join(ROOT, "replays")) else []:
+        if old.startswith(pid + "-"):
+            os.remove(os.path.join(ROOT, "replays", old))
     broken = []          # names of theorems/streams that no longer check
     violations = []      # dicts with failing inputs
     notes = []
@@ -258,9 +263,10 @@ def check(pid, tier, seed):
                 c = json.loads(l)
                 cases.insert(0, props.Case(c["kind"], c["fn"], c["args"], "corpus", True))
         lines = ["\t".join([c.fn, *c.args]) for c in cases]
+        mlines = ["\t".join([c.fn, *(c.margs if c.margs is not None else c.args)]) for c in cases]
         try:
             impl = run_impl(lines, facts_path)
-            model = run_model(lines)
+            model = run_model(mlines)
         except Exception as e:  # noqa: BLE001
             broken.append({"what": "harness", "detail": str(e)[-600:]})
             impl = model = []
